@@ -38,8 +38,10 @@ Definition ex_graph : graph := mk_graph
      ([], [ns_part; own_part], [], nm [109;49], []) ],
    [1; 2], false).
 
-Example ex_hyp : deps_cover ex_graph.
-Proof. apply deps_coverb_sound. vm_compute. reflexivity. Qed.
+(* the dumped dependencies of the example already cover its uses (the diagnostic the harness
+   evaluates on every linker dump) *)
+Example ex_hyp : deps_coverb ex_graph = true.
+Proof. vm_compute. reflexivity. Qed.
 
 (* three chunks: e0 {01}, e1 {10}, shared {11} with m0, m1; both entry chunks import the
    shared chunk statically; e1 imports e0's chunk dynamically; the shared chunk exports
